@@ -617,9 +617,11 @@ def job_topmap(seed):
         raise core.Undecided('front end: TopologyMap::Apply not found')
     ev = []
     tin, tout = {'id': 'in'}, {'id': 'out'}
+    # the output topology may hold ANY earlier box (a previous frame): type and volume are arbitrary and may coincide with the input's
     cb = {'getStep': lambda t: ('step', t['id']), 'getTime': lambda t: ('time', t['id']), 'getBox': lambda t: ('box', t['id']),
           'setStep': lambda t, v: ev.append(('setStep', t['id'], v)), 'setTime': lambda t, v: ev.append(('setTime', t['id'], v)), 'setBox': lambda t, v: ev.append(('setBox', t['id'], v)),
-          'getBoundary': lambda t: ('bc', t['id']), 'Apply': lambda m, bc: ev.append(('map', m['k'], bc))}
+          'getBoundary': lambda t: ('bc', t['id']), 'Apply': lambda m, bc: ev.append(('map', m['k'], bc)),
+          'getBoxType': lambda t: 'SAME-TYPE', 'BoxVolume': lambda t: D(sp.Symbol('same_volume', positive=True))}      # the worst case for a conditional copy: same type, same volume, different box
     ex = Exec({}, cb, {}, {'in_': tin, 'out_': tout, 'maps_': [{'k': 0}, {'k': 1}]})
     try:
         ex.stmt(rvc.body_of(fns['Apply'][0]))
